@@ -90,44 +90,93 @@ def gen_texts(ck):
 
 # ---------------------------------------------------------------------------- tag
 TAG_CHARS = ["a", "%", "(", ")", "s", " ", "\n", "<", "n", "\t"]
+WS_CHARS_Q = ["a", " ", "\n", "\t", "%"]                      # whitespace sweep, quick
+WS_CHARS_T = ["a", " ", "\n", "\t", "%", "\x1c", "\r", "\x0b"]  # thorough: every kind of ASCII whitespace
+IDENT = re.compile(r"\w[\w\-]*\??", re.ASCII)
+NAMES = ["a-b", "q?", "a-b?", "-", "x y", "a)s", "", "a%", "n(", "9", "_", "a.b"]   # plain, hyphenated, quoted-only names
+NAME_VALUES_ALL = {"a-b": "AB", "q?": "Q", "a-b?": "ABQ", "-": "D", "x y": "XY", "a)s": "AS", "": "E", "a%": "AP", "n(": "NP",
+               "9": "NINE", "_": "U", "a.b": "ADB"}
+
+
+def var_markup(name):
+    return f"{{{{ {name} }}}}" if IDENT.fullmatch(name) and not name[0].isdigit() else f"{{{{ ['{name}'] }}}}"
 
 
 def tag_source(items, variant):
-    body = "".join(f"{{{{ {it[1]} }}}}" if it[0] == "var" else it[1] for it in items)
+    body = "".join(var_markup(it[1]) if it[0] == "var" else it[1] for it in items)
+    NAME_VALUES = {it[1]: NAME_VALUES_ALL[it[1]] for it in items if it[0] == "var" and it[1] in NAME_VALUES_ALL}
+    allv = dict(VALUES, **NAME_VALUES)
     if variant == "plain":
-        return "{% translate %}" + body + "{% endtranslate %}", dict(VALUES), VALUES
+        return "{% translate %}" + body + "{% endtranslate %}", dict(allv), allv
     if variant == "args":
-        return "{% translate n: 'N1', m: mv %}" + body + "{% endtranslate %}", {"mv": VALUES["m"]}, VALUES
+        return "{% translate n: 'N1', m: mv %}" + body + "{% endtranslate %}", dict(NAME_VALUES, mv=VALUES["m"]), allv
     if variant == "context":
-        return "{% translate context: 'c', n: 'N1' %}" + body + "{% endtranslate %}", {}, {"n": "N1"}
+        return "{% translate context: 'c', n: 'N1' %}" + body + "{% endtranslate %}", dict(NAME_VALUES), dict(NAME_VALUES, n="N1")
     if variant == "plural-1":
-        return "{% translate count: 1 %}" + body + "{% plural %}P" + body + "{% endtranslate %}", dict(VALUES), dict(VALUES, count="1")
+        return "{% translate count: 1 %}" + body + "{% plural %}P" + body + "{% endtranslate %}", dict(allv), dict(allv, count="1")
+    if variant == "plural-2":      # the plural block goes through the same construction
+        return "{% translate count: 2 %}S{% plural %}" + body + "{% endtranslate %}", dict(allv), dict(allv, count="2")
     raise ValueError(variant)
 
 
+NAME_OK = re.compile(r"[A-Za-z0-9_?\-]+")
+
+
 def ref_tag(items, vars_):
-    """The property: text as written (percent signs included), whitespace runs containing a newline collapsed to
-    one space and the ends stripped, {{ name }} replaced by the variables."""
-    marks, buf = {}, []
-    for i, it in enumerate(items):
-        if it[0] == "var":
-            mark = chr(0xE000 + i)
-            marks[mark] = vars_.get(it[1], "")
-            buf.append(mark)
+    """The property, written as the documented rule and not as the code's regex: the ends are stripped; inside, a run
+    of whitespace characters that contains a newline becomes one space, any other run stays; nothing else changes;
+    {{ name }} is replaced by the variable (whose own whitespace is never touched).  A placeholder whose name could not
+    be told from message text is rejected when the template is parsed."""
+    if any(it[0] == "var" and not NAME_OK.fullmatch(it[1]) for it in items):
+        return ("err", "ESyntax")
+    toks = [(it[0], it[1]) for it in items]
+    is_ws = lambda t: t[0] == "chr" and t[1].isspace()
+    while toks and is_ws(toks[0]):
+        toks.pop(0)
+    while toks and is_ws(toks[-1]):
+        toks.pop()
+    out, k = [], 0
+    while k < len(toks):
+        if is_ws(toks[k]):
+            e = k
+            while e < len(toks) and is_ws(toks[e]):
+                e += 1
+            run = "".join(t[1] for t in toks[k:e])
+            out.append(" " if "\n" in run else run)
+            k = e
         else:
-            buf.append(it[1])
-    msg = re.sub(r"\s*\n\s*", " ", "".join(buf).strip())
-    return "".join(marks.get(c, c) for c in msg)
+            out.append(vars_.get(toks[k][1], "") if toks[k][0] == "var" else toks[k][1])
+            k += 1
+    return ("out", "".join(out))
 
 
 def gen_tag_items(ck):
+    """(items, variants)"""
+    allv = ["plain", "args", "context", "plural-1", "plural-2"]
     alphabet = [("chr", c) for c in TAG_CHARS] + [("var", "n"), ("var", "m")]
     maxlen = 3 if ck.quick else 4
     for n in range(1, maxlen + 1):
         for items in itertools.product(alphabet, repeat=n):
-            yield list(items)
+            yield list(items), (allv if n <= 2 else (["plain", "plural-2"] if n == 3 else ["plain"]))
+    # whitespace sweep: every block over the whitespace alphabet
+    ws = [("chr", c) for c in (WS_CHARS_Q if ck.quick else WS_CHARS_T)] + [("var", "n")]
+    ws5 = [("chr", c) for c in (["a", " ", "\n"] if ck.quick else ["a", " ", "\n", "\t", "%"])] + [("var", "n")]
+    for n in range(1, 6):
+        for items in itertools.product(ws if n < 5 else ws5, repeat=n):
+            if any(it[0] == "chr" and it[1].isspace() for it in items):
+                yield list(items), ["plain"]
+    # variable names: every name alone, after a percent sign, between text, next to whitespace
+    for nm in NAMES:
+        v = ("var", nm)
+        for items in ([v], [("chr", "%"), v], [("chr", "a"), v, ("chr", "b")], [("chr", " "), v, ("chr", "\n"), v, ("chr", " ")],
+                      [v, ("chr", "%"), ("chr", "("), ("chr", "n"), ("chr", ")"), ("chr", "s")], [("var", "n"), v]):
+            yield items, ["plain", "args", "plural-2"]
+    rich = alphabet + [("chr", c) for c in ("\x1c", "\r", "\x0b", "\x0c", "\x1f")] + [("var", nm) for nm in ("a-b", "q?", "x y")]
     for _ in range(400 if ck.quick else 4000):
-        yield [ck.rng.choice(alphabet) for _ in range(ck.rng.randrange(4, 12))]
+        yield [ck.rng.choice(rich) for _ in range(ck.rng.randrange(4, 12))], [ck.rng.choice(["plain", "args", "plural-1", "plural-2"])]
+    values_ws = {"n": " N \n 1 ", "m": "\n"}                       # whitespace inside VALUES is never normalised
+    for items in ([("var", "n")], [("chr", " "), ("var", "n"), ("chr", "\n"), ("var", "m"), ("chr", " ")]):
+        yield items, [("values", values_ws)]
 
 
 def g_items(items):
@@ -138,73 +187,167 @@ def g_vars(vars_):
     return g_list(f"({g_str(k)}, {g_str(v)})" for k, v in sorted(vars_.items()))
 
 
-# ------------------------------------------------------------------------- plural
-COUNTS = [("absent", None), ("nil", None), ("bool", True), ("bool", False), ("int", 0), ("int", 1), ("int", 2), ("int", -1),
-          ("int", 10**12), ("strint", 2), ("strint", 1), ("strint", 0), ("strbad", None)]
+# ------------------------------------------------------- counts, contexts, gettext calls
+class Recorder:
+    """A translations object (public API: the `translations` render variable) that returns WHICH gettext function was
+    called with which context and count instead of a translation."""
+
+    def gettext(self, message):
+        return "G"
+
+    def ngettext(self, singular, plural, n):
+        return f"N:{n}"
+
+    def pgettext(self, ctx, message):
+        return f"P:{ctx}"
+
+    def npgettext(self, ctx, singular, plural, n):
+        return f"Q:{n}:{ctx}"
+
+
+INF = float("inf")
+# (kind, python value) ; kind decides the Gallina constructor
+COUNTS = [("absent", None), ("nil", None), ("bool", True), ("bool", False),
+          ("int", 0), ("int", 1), ("int", 2), ("int", -1), ("int", 10**12), ("int", 10**30),
+          ("float", 1.0), ("float", 1.5), ("float", 2.0), ("float", 0.5), ("float", -0.5), ("float", -1.0), ("float", 1.99), ("float", 0.0),
+          ("inf", INF), ("inf", -INF), ("nan", float("nan")),
+          ("str", "2"), ("str", "1"), ("str", "0"), ("str", " 1 "), ("str", "+1"), ("str", "-1"), ("str", "01"), ("str", "1_0"),
+          ("str", "1__0"), ("str", "_1"), ("str", "1_"), ("str", "1.0"), ("str", "1e0"), ("str", "abc"), ("str", ""), ("str", " "),
+          ("str", "- 1"), ("str", "\t2\n"), ("str", "+"), ("str", "1 1"), ("str", "0x1"),
+          ("arr", [1, 2]), ("arr", []), ("hash", {"a": 1})]
+CTXS = [("absent", None), ("nil", None), ("bool", True), ("bool", False), ("int", 0), ("int", 5), ("str", ""), ("str", "c"),
+        ("str", "x y")]
+COUNT_REPS = [("absent", None), ("nil", None), ("int", 1), ("int", 2), ("str", "2"), ("bool", False)]   # crossed with every context
+ENTRIES = ["tag", "t", "gettext", "ngettext", "pgettext", "npgettext"]
+ENTRY_C = {"tag": "ETag", "t": "ETFilter", "gettext": "EGettext", "ngettext": "ENgettext", "pgettext": "EPgettext", "npgettext": "ENpgettext"}
 
 
 def g_count(c):
     k, v = c
-    return {"absent": "CAbsent", "nil": "CNil", "strbad": "CStrBad"}.get(k) or (
-        f"CBool {g_bool(v)}" if k == "bool" else (f"CInt {g_Z(v)}" if k == "int" else f"CStrInt {g_Z(v)}"))
+    if k == "float":
+        import decimal
+        sign, digits, exp = decimal.Decimal(repr(v)).as_tuple()
+        m = int("".join(map(str, digits))) * (-1 if sign else 1)
+        assert exp <= 0
+        return f"CFloat {g_Z(m)} {-exp}%nat"
+    return {"absent": "CAbsent", "nil": "CNil", "inf": "CInf", "nan": "CNan", "arr": "CArr", "hash": "CHash"}.get(k) or (
+        f"CBool {g_bool(v)}" if k == "bool" else (f"CInt {g_Z(v)}" if k == "int" else f"CStr {g_str(v)}"))
 
 
-def plural_source(is_tag, has_plural, c):
+def g_ctx(x):
+    k, v = x
+    return {"absent": "XAbsent", "nil": "XNil"}.get(k) or (
+        f"XBool {g_bool(v)}" if k == "bool" else (f"XInt {g_Z(v)}" if k == "int" else f"XStr {g_str(v)}"))
+
+
+def literal(c):
+    """The value written as a template literal, where Liquid has one."""
     k, v = c
+    if k == "nil":
+        return "nil"
+    if k == "bool":
+        return "true" if v else "false"
+    if k == "int" and abs(v) < 10**15:
+        return str(v)
+    if k == "float":
+        return repr(v)
+    if k == "str" and "'" not in v and "\n" not in v:
+        return "'" + v + "'"
+    return None
+
+
+def call_source(entry, has_plural, c, x, lit):
+    """Template + data for one (entry point, plural?, count, context); None when the combination cannot be written."""
     data = {}
-    if k == "absent":
-        arg = None
-    elif k == "nil":
-        arg = "nil"
-    elif k == "bool":
-        arg = "true" if v else "false"
-    elif k == "int":
-        data["cnt"] = v
-        arg = "cnt"
-    elif k == "strint":
-        arg = f"'{v}'"
-    else:
-        arg = "'abc'"
-    if is_tag:
-        args = f" count: {arg}" if arg is not None else ""
-        return "{% translate" + args + " %}S" + ("{% plural %}P" if has_plural else "") + "{% endtranslate %}", data
-    parts = []
-    if has_plural:
-        parts.append("plural: 'P'")
-    if arg is not None:
-        parts.append(f"count: {arg}")
-    return "{{ 'S' | t" + (": " + ", ".join(parts) if parts else "") + " }}", data
+
+    def arg(name, val):
+        if val[0] == "absent":
+            return None
+        if lit:
+            l = literal(val)
+            if l is not None:
+                return l
+        data[name] = val[1]
+        return name
+
+    cnt, ctx = arg("cnt", c), arg("ctx", x)
+    if entry == "tag":
+        args = ", ".join(p for p in (f"context: {ctx}" if ctx else None, f"count: {cnt}" if cnt else None) if p)
+        return "{% translate " + args + " %}S" + ("{% plural %}P" if has_plural else "") + "{% endtranslate %}", data
+    if entry == "t":
+        parts = [p for p in (ctx, "plural: 'P'" if has_plural else None, f"count: {cnt}" if cnt else None) if p]
+        return "{{ 'S' | t" + (": " + ", ".join(parts) if parts else "") + " }}", data
+    if entry == "gettext":
+        return ("{{ 'S' | gettext }}", data) if (cnt is None and ctx is None and not has_plural) else None
+    if entry == "ngettext":
+        return ("{{ 'S' | ngettext: 'P', " + cnt + " }}", data) if (cnt and ctx is None and has_plural) else None
+    if entry == "pgettext":
+        return ("{{ 'S' | pgettext: " + ctx + " }}", data) if (ctx and cnt is None and not has_plural) else None
+    if entry == "npgettext":
+        return ("{{ 'S' | npgettext: " + ctx + ", 'P', " + cnt + " }}", data) if (ctx and cnt and has_plural) else None
+    raise ValueError(entry)
 
 
-def ref_plural(has_plural, c):
-    """gettext.NullTranslations chooses by n == 1; only defined here for integer counts."""
+def ref_plural(entry, has_plural, c):
+    """gettext.NullTranslations chooses by n == 1.  Decided here only for counts that denote a number: integers,
+    finite floats (by their integer part) and strings Python reads as an integer.  For anything else (None) the property
+    fixes no form, but a foreign exception is never acceptable."""
     import gettext
 
     k, v = c
-    if k not in ("int", "strint"):
+    if k == "absent":
+        return "S"
+    if k == "int" or k == "float":
+        n = int(v)
+    elif k == "str":
+        try:
+            n = int(v)
+        except ValueError:
+            return None
+    else:
         return None
     if not has_plural:
         return "S"
-    return gettext.NullTranslations().ngettext("S", "P", int(v))
+    return gettext.NullTranslations().ngettext("S", "P", n)
+
+
+def parse_call(out):
+    if out == "G":
+        return "GGet"
+    if out.startswith("N:"):
+        return f"GNget {g_Z(int(out[2:]))}"
+    if out.startswith("P:"):
+        return f"GPget {g_str(out[2:])}"
+    if out.startswith("Q:"):
+        n, ctx = out[2:].split(":", 1)
+        return f"GNpget {g_str(ctx)} {g_Z(int(n))}"
+    return None
 
 
 def run(ck: Check) -> None:
     ck.rule = (
         "filters: every message built from <=3 (quick) / <=4 pieces of {%, %%, %s, %(n)s, %(m)s, (, ), space, <, a, %(, )s, newline} "
         "plus random longer ones, through t/gettext/pgettext/ngettext/npgettext with variables from keyword arguments, render data, or "
-        "missing; tag: every body of <=3 / <=4 items over 10 characters and two variables plus random longer ones, in four tag variants; "
-        "plural: 13 count values x with/without plural x tag and t filter (exhaustive). Non-trivial = the message contains a percent sign "
-        "or a placeholder; distinct = distinct (message, variant)."
+        "missing; tag: every body of <=3 / <=4 items over 10 characters and two variables in up to five tag variants (plain, arguments, "
+        "context:, singular and plural block); every body of <=5 items over a whitespace alphabet (space, newline, tab, a, %, a variable; "
+        "thorough adds \\r \\v \\x1c) that contains whitespace; 12 variable names (hyphen, question mark, quoted names with spaces, "
+        "parentheses, percent, empty) in 6 positions; random longer bodies over all of these; variable values containing whitespace; "
+        "counts/contexts: 45 count values (absent, nil, booleans, integers, floats, infinities, NaN, 21 strings, arrays, hash) x "
+        "9 contexts (representatives crossed) x with/without plural x the six entry points, as variables and as literals, rendered with "
+        "null translations and with a recording translations object (which gettext function, which context, which n). "
+        "Non-trivial = the message contains a percent sign, whitespace or a placeholder / the call has a plural or a context; "
+        "distinct = distinct (message, variant)."
     )
     ck.exhaustive = True
     ck.trusted_base = [
         "Coq 8.16.1 kernel + vm_compute",
-        "harness: generators, template printers, Gallina printers, reference substitution (props/c26.py)",
-        "modelled not verified: Python re (the two placeholder patterns, \\s*\\n\\s*), str.strip, printf-style % formatting with a mapping, "
-        "gettext.NullTranslations",
-        "assumed: \\w and \\s restricted to ASCII in the model",
+        "harness: generators, template printers, Gallina printers, reference substitution and whitespace rule, recording translations (props/c26.py)",
+        "modelled not verified: Python re (the two placeholder patterns, \\s*\\n\\s* with leftmost-greedy matching), str.strip, "
+        "printf-style % formatting with a mapping, int() on strings and floats, gettext.NullTranslations",
+        "assumed: \\w and \\s/str.isspace restricted to ASCII in the model (ASCII whitespace = space, \\t\\n\\v\\f\\r, \\x1c-\\x1f)",
     ]
-    ck.assumptions = ["autoescape off (C05 covers escaping); message catalogues other than NullTranslations are out of scope"]
+    ck.assumptions = ["autoescape off (C05 covers escaping); message catalogues other than NullTranslations are out of scope; "
+                      "count strings longer than the integer-string limit (a Liquid error by C07's limit) are not generated"]
     ck.proof()
 
     # ---- filters
@@ -221,7 +364,7 @@ def run(ck: Check) -> None:
                 a = render(src, data, True)
                 sig = filter_sig(chosen, s)
                 sigs[sig] = sigs.get(sig, 0) + 1
-                if sigs[sig] <= 2:
+                if sigs[sig] <= 2 and sum(1 for v in sigs.values() for _ in range(min(v, 2))) <= 60:
                     ck.violation("impl-violation", sig,
                                  f"{src!r} with msg={text!r}: got {s} (async {a}), message text with placeholders substituted is {want!r}",
                                  {"type": "filter", "template": src, "data": data, "vars": vars_, "chosen": chosen, "got": s, "reference": want})
@@ -241,18 +384,24 @@ def run(ck: Check) -> None:
 
     # ---- tag
     tcases, texpected, tmeta = [], [], []
-    for items in gen_tag_items(ck):
-        for variant in (["plain", "args", "context", "plural-1"] if len(items) <= 3 else [ck.rng.choice(["plain", "args", "plural-1"])]):
-            src, data, vars_ = tag_source(items, variant)
+    for items, variants in gen_tag_items(ck):
+        for variant in variants:
+            if isinstance(variant, tuple):           # plain tag, variables whose VALUES contain whitespace
+                src, _, _ = tag_source(items, "plain")
+                data = vars_ = dict(variant[1])
+                variant = "values"
+            else:
+                src, data, vars_ = tag_source(items, variant)
             s = render(src, data)
             a = render(src, data, True)
             want = ref_tag(items, vars_)
-            ck.note_case(("tag", tuple(items), variant), nontrivial=any(it == ("chr", "%") or it[0] == "var" for it in items))
+            ck.note_case(("tag", tuple(items), variant),
+                         nontrivial=any(it == ("chr", "%") or it[0] == "var" or it[1].isspace() for it in items))
             ck.count(f"tag.{variant}")
-            if s != ("out", want) or a != s:
-                sig = tag_sig(items, s)
+            if s != want or a != s:
+                sig = tag_sig(items, s, want)
                 sigs[sig] = sigs.get(sig, 0) + 1
-                if sigs[sig] <= 2:
+                if sigs[sig] <= 2 and sum(1 for v in sigs.values() for _ in range(min(v, 2))) <= 60:
                     ck.violation("impl-violation", sig,
                                  f"{src!r} data {data!r}: sync {s} async {a}, expected {want!r}",
                                  {"type": "tag", "template": src, "data": data, "items": items, "vars": vars_, "got": s, "reference": want})
@@ -261,42 +410,77 @@ def run(ck: Check) -> None:
                 texpected.append(f"TOut {g_str(s[1])}" if s[0] == "out" else f"TErr {s[1]}")
                 tmeta.append((src, data, s))
     ck.sample({"template": tmeta[len(tmeta) // 2][0], "data": tmeta[len(tmeta) // 2][1], "output": tmeta[len(tmeta) // 2][2]})
-    mm = ck.coq_mismatches("tag", IMPORTS, "run_tag", "tobs_eqb", "tcase", "tobs", tcases, texpected, chunk=1500)
-    ck.traces += len(tcases)
-    for i in mm[:3]:
-        src, data, s = tmeta[i]
-        ck.violation("correspondence", "c26-tag-correspondence",
-                     f"model Translate.run_tag and the implementation disagree on {src!r} data {data!r}: impl {s}",
-                     {"type": "tag", "template": src, "data": data, "impl": s,
-                      "broken": "correspondence Translate.run_tag ~ translate tag (theorem C26_tag_text_intact)"}, no_input=True)
+    for fn, what in (("run_tag", "translate tag (theorems C26_tag_*)"),
+                     ("run_tag_spec", "translate tag, declarative whitespace rule (theorem C26_tag_normalised)")):
+        mm = ck.coq_mismatches("tag_" + fn, IMPORTS, fn, "tobs_eqb", "tcase", "tobs", tcases, texpected, chunk=1500)
+        ck.traces += len(tcases)
+        for i in mm[:3]:
+            src, data, s = tmeta[i]
+            ck.violation("correspondence", "c26-tag-correspondence",
+                         f"model Translate.{fn} and the implementation disagree on {src!r} data {data!r}: impl {s}",
+                         {"type": "tag", "template": src, "data": data, "impl": s,
+                          "broken": f"correspondence Translate.{fn} ~ {what}"}, no_input=True)
 
-    # ---- plural
+    # ---- counts, contexts, which gettext function is called
+    ccases, cexpected, cmeta = [], [], []
     pcases, pexpected, pmeta = [], [], []
-    for is_tag in (True, False):
+    rec = Recorder()
+    for e_i, entry in enumerate(ENTRIES):
         for has_plural in (True, False):
             for c in COUNTS:
-                src, data = plural_source(is_tag, has_plural, c)
-                s = render(src, data)
-                want = ref_plural(has_plural, c)
-                ck.note_case(("plural", is_tag, has_plural, c), nontrivial=has_plural)
-                ck.count("plural.cases")
-                if want is not None and s != ("out", want):
-                    sig = f"plural-count-{c[1]}-" + ("tag" if is_tag else "t-filter")
-                    ck.violation("impl-violation", sig, f"{src!r} data {data!r}: got {s}, NullTranslations chooses {want!r}",
-                                 {"type": "plural", "template": src, "data": data, "got": s, "reference": want})
-                obs = "Ok Singular" if s == ("out", "S") else ("Ok Plural" if s == ("out", "P") else (f"Err {s[1]}" if s[0] == "err" else None))
-                if obs:
-                    pcases.append(f"{{| pc_tag := {g_bool(is_tag)}; pc_plural := {g_bool(has_plural)}; pc_count := {g_count(c)} |}}")
-                    pexpected.append(obs)
-                    pmeta.append((src, data, s))
-    mm = ck.coq_mismatches("plural", IMPORTS, "run_plural", "pobs_eqb", "pcase", "res form", pcases, pexpected)
-    ck.traces += len(pcases)
-    for i in mm[:3]:
-        src, data, s = pmeta[i]
-        ck.violation("correspondence", "c26-plural-correspondence",
-                     f"model Translate.run_plural and the implementation disagree on {src!r} data {data!r}: impl {s}",
-                     {"type": "plural", "template": src, "data": data, "impl": s,
-                      "broken": "correspondence Translate.run_plural ~ plural selection (theorem C26_plural_rule)"}, no_input=True)
+                for x in CTXS:
+                    if x[0] != "absent" and x != ("str", "c") and c not in COUNT_REPS:
+                        continue      # every count with no context and with 'c'; every context with the representative counts
+                    for lit in (False, True):
+                        made = call_source(entry, has_plural, c, x, lit)
+                        if made is None:
+                            continue
+                        src, data = made
+                        if lit and not (literal(c) or literal(x)):
+                            continue
+                        ck.note_case(("call", entry, has_plural, repr(c), x, lit), nontrivial=has_plural or x[0] != "absent")
+                        ck.count(f"call.{entry}")
+                        s = render(src, data)
+                        a = render(src, data, True)
+                        r = render(src, dict(data, translations=rec))
+                        want = ref_plural(entry, has_plural, c)
+                        bad = (want is not None and s != ("out", want)) or a != s or (
+                            s[0] == "err" and s[1] in FOREIGN) or (s[0] == "out" and s[1] not in ("S", "P"))
+                        if bad:
+                            sig = f"plural-count-{c[0]}-{entry}" + (f"-{s[1]}" if s[0] == "err" else "")
+                            sigs[sig] = sigs.get(sig, 0) + 1
+                            if sigs[sig] <= 2 and sum(1 for v in sigs.values() for _ in range(min(v, 2))) <= 60:
+                                ck.violation("impl-violation", sig,
+                                             f"{src!r} data {data!r}: sync {s} async {a}, NullTranslations chooses {want!r}",
+                                             {"type": "plural", "template": src, "data": data, "got": s, "reference": want})
+                        case = (f"{{| pc_entry := {ENTRY_C[entry]}; pc_plural := {g_bool(has_plural)}; pc_count := {g_count(c)}; "
+                                f"pc_ctx := {g_ctx(x)} |}}")
+                        obs = "Ok Singular" if s == ("out", "S") else ("Ok Plural" if s == ("out", "P") else (
+                            f"Err {s[1]}" if s[0] == "err" else None))
+                        if obs:
+                            pcases.append(case)
+                            pexpected.append(obs)
+                            pmeta.append((src, data, s))
+                        cobs = (f"Ok ({parse_call(r[1])})" if r[0] == "out" and parse_call(r[1]) else (f"Err {r[1]}" if r[0] == "err" else None))
+                        if cobs:
+                            ccases.append(case)
+                            cexpected.append(cobs)
+                            cmeta.append((src, data, r))
+    for name, fn, eqb, obs_t, cs, ex, meta_ in (("plural", "run_plural", "pobs_eqb", "res form", pcases, pexpected, pmeta),
+                                              ("call", "run_call", "cobs_eqb", "res gcall", ccases, cexpected, cmeta)):
+        mm = ck.coq_mismatches(name, IMPORTS, fn, eqb, "pcase", obs_t, cs, ex, chunk=1500)
+        ck.traces += len(cs)
+        for i in mm[:3]:
+            src, data, s = meta_[i]
+            ck.violation("correspondence", f"c26-{name}-correspondence",
+                         f"model Translate.{fn} and the implementation disagree on {src!r} data {data!r}: impl {s}",
+                         {"type": "plural", "template": src, "data": {k: repr(v) for k, v in data.items()}, "impl": s,
+                          "broken": f"correspondence Translate.{fn} ~ count/context handling (theorems C26_plural_*, C26_context_*)"},
+                         no_input=True)
+
+
+FOREIGN = {"EValueError", "ETypeError", "EOverflowError", "EIndexError", "EKeyError", "EAssertionError", "EArithmeticError",
+           "ERecursionError", "EUnicodeError", "EOSError", "ERuntimeError", "EOtherForeign"}
 
 
 def filter_sig(text, s):
@@ -309,7 +493,12 @@ def filter_sig(text, s):
     return "filter:" + repr(text)[:80]
 
 
-def tag_sig(items, s):
+def tag_sig(items, s, want=None):
+    odd = [it[1] for it in items if it[0] == "var" and not re.fullmatch(r"\w+", it[1], re.ASCII)]
+    if odd and want and want[0] == "out" and s[0] == "err":
+        return f"tag-variable-name-{s[1]}"
+    if odd and want and want[0] == "err":
+        return "tag-variable-name-accepted"
     if s[0] == "err":
         return f"tag-percent-before-variable-{s[1]}"
     return "tag:" + repr(items)[:150]
@@ -323,6 +512,7 @@ def replay(data) -> int:
     s = render(case["template"], case["data"])
     print("template:", case["template"], "data:", case["data"])
     print("got:", s, "expected:", case.get("reference"))
-    bad = s != ("out", case.get("reference"))
+    ref = case.get("reference")
+    bad = (s != tuple(ref) if isinstance(ref, (list, tuple)) else (s != ("out", ref) if ref is not None else s[0] == "err"))
     print(("VIOLATION reproduced" if bad else "not reproduced") + f" property={data['property']}")
     return 1 if bad else 0
